@@ -2,7 +2,7 @@
 using namespace smooth;
 MC_SUBCHECK(so)
 {
-  const int d = mc::thorough() ? 7 : 4;
+  const int d = mc::thorough() ? 7 : 5;
   c16::Harness<SO2d>("SO2d").run(d);
   c16::Harness<SO3d>("SO3d").run(d);
   c16::Harness<SO3f>("SO3f").run(d);
